@@ -11,6 +11,7 @@ FB = [
     dict(site="c1.fb_speed", owner="c1", meth="speed", key=None, hint=None, nt="/components/c1/speed", topic=None),
     dict(site="c2.fb_thing", owner="c2", meth="get_thing", key="custom", hint=int, nt="/components/c2/custom", topic="IntegerTopic"),
     dict(site="c2.fb_arr", owner="c2", meth="get_arr", key=None, hint=Sequence[float], nt="/components/c2/arr", topic="DoubleArrayTopic"),
+    dict(site="c1.fb_count", owner="c1", meth="get_count", key=None, hint="int", nt="/components/c1/count", topic="IntegerTopic"),
     dict(site="robot.fb_rv", owner="robot", meth="get_rv", key=None, hint=bool, nt="/robot/rv", topic="BooleanTopic"),
     dict(site="robot.fb_status", owner="robot", meth="status", key="get_status", hint=str, nt="/robot/get_status", topic="StringTopic"),
 ]
@@ -27,14 +28,19 @@ def _mk_getter(H, spec, state):
         h = spec["hint"]
         if h is float or h is None:
             v = c.real(f"v_{site}_{n}", -1000, 1000)
-        elif h is int:
+        elif h is int or h == "int":
             v = c.integer(f"v_{site}_{n}", -1000, 1000)
         elif h is bool:
             v = c.boolean(f"v_{site}_{n}")
         elif h is str:
             v = f"s{n}"
         else:
-            v = [c.real(f"v_{site}_{n}_0", -10, 10), c.real(f"v_{site}_{n}_1", -10, 10)]
+            # a pre-allocated buffer updated in place and returned every time (same object, new contents)
+            buf = state.setdefault(("buf", id(self)), [0.0, 0.0])
+            buf[0] = c.real(f"v_{site}_{n}_0", -10, 10)
+            buf[1] = c.real(f"v_{site}_{n}_1", -10, 10)
+            H.log.add("fbret", site, list(buf))
+            return buf
         H.log.add("fbret", site, v)
         return v
 
@@ -162,6 +168,13 @@ class C11(LoopSpec):
     def reach_required(self, tier):
         return ["fb-iteration-teleop", "fb-iteration-auto", "fb-iteration-disabled", "fb-iteration-test", "published",
                 "raising-getter", "typed-topic"]
+
+    def extra(self, tier, seed):
+        from real.run import nt_contract
+
+        r = nt_contract()
+        return dict(obligations=0, discharged=0, validated=r["validated"], problems=r["problems"], samples=r.get("samples", []),
+                    info=dict(nt_stub_contract_observations_matching_real_ntcore=r["validated"]))
 
     def path_fn(self, c, job):
         H = run(c, job)
